@@ -62,9 +62,39 @@ def _run(prop, prefixes, what, tier, seed, replay, extra=None):
     return rep.finish()
 
 
+def _c01_mp(rep, tier, seed):
+    """'This holds for the backtracking and the multiprocessing solver': vectors delivered by real worker processes
+    (enumeration and optimisation on real splits), judged by spec/SolTrace.tla."""
+    import json
+    import mp
+    from common import NCPU, Scratch, nucs_env, read_ndjson, run_workers, validate_shards
+    scs = [sc for sc in mp.gen_scenarios(seed + 3, 96 if tier == "quick" else 1200, None, kmax=4)]
+    with Scratch("c01mp") as tmp:
+        outs = run_workers("mp_worker.py", [{"kind": "real", "scenarios": scs[k::NCPU]} for k in range(NCPU) if scs[k::NCPU]],
+                           nucs_env(jit=False), tmp, timeout=900)
+        runs = {r["id"]: r for r in read_ndjson(outs)}
+        recs = []
+        for sc in scs:
+            r = runs.get(sc["id"])
+            if r is None or r["outcome"] != "returned":
+                rep.fail({"scenario": sc, "outcome": None if r is None else r["outcome"]}, "multiprocessing run did not return")
+                continue
+            sols = r["yields"] if sc["mode"] == "solve" else ([r["ret"]] if not r["none"] else [])
+            recs.append({"rid": len(recs), "P": sc["P"], "sols": sols[:400], "sc": sc["id"]})
+        slim = [{k: x[k] for k in ("rid", "P", "sols")} for x in recs]
+        verdicts, judged, st, tr = validate_shards("SolTrace", "SolTrace.cfg", "SOL_RECS", slim, tmp)
+    for rid, clause in set(map(tuple, verdicts)):
+        sc = next(s for s in scs if s["id"] == recs[rid]["sc"])
+        rep.fail({"P": sc["P"], "k": sc["k"], "mode": sc["mode"], "var": sc["var"], "clause": clause, "stage": "multiprocessing"},
+                 f"{clause} on a vector delivered by the multiprocessing solver ({sc['k']} processes, {sc['mode']}) for {json.dumps(sc['P'])[:300]}")
+    rep.add(states=st, transitions=tr, traces_validated_against_impl=judged)
+    rep.cov["multiprocessing_vectors_judged"] = sum(len(x["sols"]) for x in recs)
+
+
 def c01(tier, seed, replay):
     return _run("C01", ("C01:",), "every yielded / returned assignment is inside the declared domains, respects the "
-                "offsets of shared domains and satisfies every posted constraint", tier, seed, replay)
+                "offsets of shared domains and satisfies every posted constraint (backtracking solver: every event trace; "
+                "multiprocessing solver: every vector delivered by real worker processes)", tier, seed, replay, extra=_c01_mp)
 
 
 def c02(tier, seed, replay):
